@@ -97,8 +97,11 @@ def unit_pbkw():
         hs += [Harness(f"unwrap_accepts_spec_{k}", ["C07", "C05"], complete=False, bound=b, functions=fn),
                Harness(f"roundtrip_{k}", ["C05"], complete=False, bound=b, functions=fn),
                Harness(f"unwrap_rejects_tamper_{k}", ["C06", "C10"], complete=False, bound=b + "; flip position/bit symbolic", functions=fn, timeout=1800)]
-    for n in (0, 55, 56, 87, 88, 121):
+    for n in (0, 55, 56, 87):
         hs.append(Harness(f"unwrap_short_{n}", ["C04", "C06"], complete=False, bound=f"blob length {n}, all parameter blocks", functions=fn))
+    for n in (88, 121):
+        hs.append(Harness(f"unwrap_len_{n}", ["C04", "C06"], complete=False, bound=f"blob length {n}, all VALID parameter blocks (Params::pbkdf by contract)", functions=fn))
+    hs.append(Harness("pbkdf_contract_h", ["C04", "C07"], functions=[f"{F}::pbkdf"], desc="Params::pbkdf for ALL parameter blocks (loop-free => complete)"))
     hs += [Harness("wrap_fail_closed_h", ["C16"], functions=fn), Harness("canary_inputs_h", ["C05", "C06", "C07"], expect="fail")]
     return paserk_unit("v4_pbkw", F, "units/v4/pbkw.rs", "core::pw_wrap::verif", ["pbkw"], hs, ASSUME_PASERK)
 
